@@ -298,7 +298,7 @@ GROUPS = ['md', 'status', 'pay', 'ids', 'wire', 'ctx', 'fault', 'serve', 'pend',
 # which rule groups can be responsible for the rejection of which event
 EV_GROUPS = {
     'CW': ['ids', 'wire', 'md', 'pay', 'ctx'], 'SR': ['route'], 'CR': ['route'], 'SW': ['wire', 'status', 'md', 'pay'],
-    'HStart': ['pay', 'md'], 'HRecvRet': ['pay', 'ctx'], 'HSendRet': ['ctx'], 'HSetHdr': ['md'],
+    'HStart': ['pay', 'md'], 'HRecvRet': ['pay', 'ctx'], 'HSendRet': ['ctx'], 'HSendBad': ['pay'], 'HSetHdr': ['md'],
     'HSendHdrRet': ['md'], 'HCtxDone': ['ctx'], 'URet': ['status', 'pay'], 'SOpenRet': ['fault'],
     'SSendRet': ['ctx', 'fault'], 'SSendBadRet': ['fault'], 'SCloseRet': ['fault'], 'SRecvRet': ['pay', 'status', 'ctx'],
     'SHdrRet': ['md'], 'STrl': ['md'], 'ServeRet': ['serve'], 'Hk': ['reg'],
